@@ -350,13 +350,17 @@ def verify(h, repo, tier="quick", log=None):
                 for gname, goal in goals:
                     oname = f"{pname}/{gname}"
                     if isinstance(goal, FrameViolation):
-                        obs.append(Ob(oname, "REFUTED", backend="frame-snapshot" if gname.startswith("frame") else "ast-alignment",
-                                      kind="frame" if gname.startswith("frame") else "alignment", case=case, witness=None,
+                        obs.append(Ob(oname, "REFUTED", backend="frame-snapshot" if gname.startswith("frame") else "ast",
+                                      kind="frame" if gname.startswith("frame") else ("cache-key" if gname.startswith("cache-key") else "alignment"),
+                                      case=case, witness=None,
                                       model={"store": goal.site, "path_decisions": str(c.frames[0].decisions[: c.frames[0].pos])},
                                       outcome=kind))
                         continue
                     if gname == "frame" and goal is True:
                         obs.append(Ob(oname, "PROVED", backend="frame-snapshot", time=0.0, case=case, outcome=kind))
+                        continue
+                    if gname.startswith("cache-key") and goal is True:
+                        obs.append(Ob(oname, "PROVED", backend="ast-scan", time=0.0, case=case, outcome=kind))
                         continue
                     if gname.startswith("align.") and goal is True:
                         obs.append(Ob(oname, "PROVED", backend="ast-alignment", time=0.0, case=case, outcome=kind))
